@@ -378,6 +378,35 @@ async fn real_case(w: &World, front: &Front, kind: &Kind, uniq: u32, early: bool
     }
 }
 
+/// one open of `name:port` through create_proxy_stream or the HTTP CONNECT front-end: was the application told "connected"?
+async fn connect_verdict(w: &World, via_http: bool, name: &str, port: u16) -> Result<bool, String> {
+    if !via_http {
+        match tokio::time::timeout(Duration::from_secs(40), w.client.create_proxy_stream((name.to_string(), port))).await {
+            Err(_) => Err("did not complete within 40 s".into()),
+            Ok(Ok(_)) => Ok(true),
+            Ok(Err(_)) => Ok(false),
+        }
+    } else {
+        let mut s = TcpStream::connect(&w.http).await.map_err(|e| e.to_string())?;
+        s.write_all(format!("CONNECT {name}:{port} HTTP/1.1\r\nHost: {name}:{port}\r\n\r\n").as_bytes()).await.map_err(|e| e.to_string())?;
+        let mut got = Vec::new();
+        let mut buf = [0u8; 512];
+        let done = tokio::time::timeout(Duration::from_secs(40), async {
+            while !got.windows(2).any(|x| x == b"\r\n") {
+                match s.read(&mut buf).await {
+                    Ok(n) if n > 0 => got.extend_from_slice(&buf[..n]),
+                    _ => break,
+                }
+            }
+        })
+        .await;
+        if done.is_err() {
+            return Err("did not complete within 40 s".into());
+        }
+        Ok(String::from_utf8_lossy(&got).lines().next().unwrap_or("").split_whitespace().nth(1) == Some("200"))
+    }
+}
+
 // ---------------------------------------------------------------- (c) first outcome wins, session level
 
 async fn first_outcome_cases(rep: &mut Report) {
@@ -647,6 +676,44 @@ pub fn run(ctx: Ctx) -> Report {
                             if at_target.iter().any(|(a, b)| a.ip() == std::net::IpAddr::V4(ip) && !b.is_empty()) {
                                 rep.violate("open_verdict", &cause, "bytes_delivered_without_success", "application bytes reached a target although the open failed".to_string(), case.clone());
                             }
+                        }
+                    }
+                }
+            }
+        }
+        // ---- the same name on several ports, one open after the other (whatever the server remembers about a name
+        // from an earlier open must not decide the verdict of a later one): name:listening, name:closed,
+        // name:listening again — and the other way round for another name. One at a time, so that accept counts
+        // belong to the request.
+        for (i, via_http) in [(0u32, false), (1, true), (2, false), (3, true)] {
+            let name = format!("ports{i}-{}.c10.test", std::process::id());
+            let ip = std::net::IpAddr::V4(netkit::name_to_v4(&name));
+            let order: Vec<(u16, bool)> = if i < 2 { vec![(w.target_port, true), (w.refused_port, false), (w.target_port, true), (w.refused_port, false)] } else { vec![(w.refused_port, false), (w.target_port, true), (w.refused_port, false)] };
+            let front = if via_http { "HttpConnect" } else { "Api" };
+            let mut history = Vec::new();
+            for (port, listening) in order {
+                let accepts_before = w.accepts.lock().unwrap().iter().filter(|(a, _)| a.ip() == ip).count();
+                let t0 = Instant::now();
+                let v = connect_verdict(&w, via_http, &name, port).await;
+                let el = t0.elapsed().as_millis() as u64;
+                tokio::time::sleep(Duration::from_millis(120)).await;
+                let new_accepts = w.accepts.lock().unwrap().iter().filter(|(a, _)| a.ip() == ip).count() - accepts_before;
+                history.push(json!({"port_listening": listening, "told_connected": format!("{:?}", v), "new_accepts_at_target": new_accepts, "ms": el}));
+                let case = json!({"kind": "c10-same-name-other-port", "front": front, "history": history.clone()});
+                rep.case(Some(hash_str(&case.to_string())));
+                rep.add("same_name_other_port_opens", 1);
+                let cause = format!("SameNameOtherPort+{front}");
+                match v {
+                    Err(e) => rep.violate("open_verdict", &cause, "open_never_completed", e, case),
+                    Ok(connected) => {
+                        if connected && !listening {
+                            rep.violate("open_verdict", &cause, "success_reported_on_failure", format!("{name}:{port} has no listener, yet the application was told 'connected' ({new_accepts} new connection(s) arrived at the listening port of the same name); history {history:?}"), case);
+                        } else if !connected && listening {
+                            rep.violate("open_verdict", &cause, "failure_although_target_accepted", format!("{name}:{port} is listening, yet the application was told failure after {el} ms; history {history:?}"), case);
+                        } else if connected && new_accepts != 1 {
+                            rep.violate("open_verdict", &cause, "success_without_target_connection", format!("told 'connected' for {name}:{port} but {new_accepts} connections arrived there; history {history:?}"), case);
+                        } else if !connected && new_accepts != 0 {
+                            rep.violate("open_verdict", &cause, "target_dialled_for_failed_open", format!("the open of {name}:{port} (no listener) failed, yet {new_accepts} connection(s) arrived at the listening port of the same name; history {history:?}"), case);
                         }
                     }
                 }
